@@ -25,7 +25,7 @@ ASSUMPTIONS = ["'once its reconnect wait has elapsed' = at the first timer check
 TIMEOUT = {"quick": 900, "thorough": 3600}
 SCTP_CLONES = {"quick": ['rand3', 'exh9'], "thorough": ['rand10', 'rand11', 'exh15']}
 OUTCOMES = ["refused", "inprogress_ok_gone", "inprogress_fail", "cea_rejected", "cea_timeout", "gone", "error", "dpr",
-            "inbound_dup_closed", "pending_inbound_lost", "inbound_dup_then_dpr"]
+            "inbound_dup_closed", "pending_inbound_lost", "inbound_dup_then_dpr", "write_error"]
 FLAGSETS = [
     dict(persistent=True, always_reconnect=False, reconnect_wait=3, addr=True),
     dict(persistent=True, always_reconnect=True, reconnect_wait=2, addr=True),
@@ -79,8 +79,9 @@ class Case:
 
     def live_outbound(self):
         """Self-initiated sockets that are connections: connect succeeded or is in progress, not closed.
-        (A socket whose connect() was refused synchronously never became a connection.)"""
-        return [s for s in self.h.sockets if s.role == "outbound" and not s.closed
+        (A socket whose connect() was refused synchronously never became a connection; one on which the kernel
+        reported a hard error is a lost connection whether or not the node has got round to closing it.)"""
+        return [s for s in self.h.sockets if s.role == "outbound" and not s.closed and not s.dead
                 and (s.peer is not None or s.connect_pending)]
 
     def may_dial(self, now):
@@ -296,6 +297,14 @@ class Case:
             self.note_loss()
         elif outcome == "error":
             p.reset_conn()
+            h.settle()
+            self.new_connects()
+            self.note_loss()
+        elif outcome == "write_error":
+            # the loss is noticed on the sending side: the node's write of a watchdog answer fails hard
+            import errno
+            p.node_sock.send_plan.append(("err", errno.EPIPE))
+            p.send(M.dwr(PEER, self.REALM, hbh=91, e2e=92))
             h.settle()
             self.new_connects()
             self.note_loss()
